@@ -326,29 +326,45 @@ func checkQuantifierAbsent(r *Run, prog *Program, a *Anchors, pfx string) {
 
 func checkLookupArgs(r *Run, prog *Program, a *Anchors, fn *ssa.Function, pfx string) {
 	pExpr := paramSym(fn.Params[0])
-	n := 0
-	for _, b := range fn.Blocks {
-		for _, ins := range b.Instrs {
-			c, ok := ins.(*ssa.Call)
-			if !ok || c.Call.StaticCallee() != a.GetValue {
+	wantPath := loadField(pExpr, "Selector", "Path").Key()
+	ps := NewPathSim(prog)
+	ps.Inline = func(c *ssa.Function) bool { return bexprHelper(prog, a, c) }
+	n, paths := 0, 0
+	seen := map[ssa.CallInstruction]bool{}
+	for _, sm := range ps.Run(fn) {
+		if sm.Ret == nil {
+			continue
+		}
+		paths++
+		var lookups []Event
+		first := true
+		firstIsLookup := false
+		for _, ev := range sm.Events() {
+			if ev.Instr == nil || ev.Inlined {
 				continue
 			}
-			n++
-			args := c.Call.Args
-			okA := len(args) == 3 && args[0] == ssa.Value(fn.Params[1]) && args[2] == ssa.Value(fn.Params[2])
-			pathOK := false
-			if ld, isLoad := args[1].(*ssa.UnOp); isLoad {
-				if fa, isFA := ld.X.(*ssa.FieldAddr); isFA && fieldName(fa.X.Type(), fa.Field) == "Path" {
-					if fa2, isFA2 := fa.X.(*ssa.FieldAddr); isFA2 && fieldName(fa2.X.Type(), fa2.Field) == "Selector" && fa2.X == ssa.Value(fn.Params[0]) {
-						pathOK = true
-					}
+			if ev.Callee == a.GetValue {
+				lookups = append(lookups, ev)
+				if first {
+					firstIsLookup = true
 				}
 			}
-			r.Check(pfx+".lookup-args", fn.Name(), prog.pos(c.Pos()), okA && pathOK, "the value lookup must be given the caller's datum, this expression's Selector.Path and the caller's options")
+			first = false
 		}
+		if len(lookups) != 1 || !firstIsLookup {
+			r.Check(pfx+".lookup-args", fn.Name()+":count", prog.pos(sm.Ret.Pos()), false, fmt.Sprintf("%d value lookups on a path through %s (expected one, before anything else) [path %s]", len(lookups), fn.Name(), strings.Join(sm.St.trail, " ")))
+			continue
+		}
+		ev := lookups[0]
+		if !seen[ev.Instr] {
+			seen[ev.Instr] = true
+			n++
+		}
+		args := ev.Args
+		okA := len(args) == 3 && args[0].Key() == paramSym(fn.Params[1]).Key() && args[2].Key() == paramSym(fn.Params[2]).Key() && args[1].Key() == wantPath
+		r.Check(pfx+".lookup-args", fn.Name(), prog.pos(ev.Instr.Pos()), okA, "the value lookup must be given the caller's datum, this expression's Selector.Path and the caller's options")
 	}
-	r.Check(pfx+".lookup-args", fn.Name()+":count", prog.pos(fn.Pos()), n == 1, fmt.Sprintf("%d value lookups in %s (expected one, before anything else)", n, fn.Name()))
-	_ = pExpr
+	r.Check(pfx+".lookup-args", fn.Name()+":count", prog.pos(fn.Pos()), n >= 1 && paths > 0, fmt.Sprintf("%d value lookups in %s (expected one, before anything else)", n, fn.Name()))
 }
 
 func init() {
